@@ -96,7 +96,12 @@ fn run_body(h: &mut H, r: &mut Rng, prof: &Profile) {
     h.begin("init");
     h.op_init(0, caps);
     let mut payload = 100i64;
+    let mut quiet = 0usize;
     for _ in 0..prof.steps {
+        // quiet bursts: a few operations observed by len/capacity only, so that nothing the
+        // observation itself calls (version(), lookups, queries) happens between them
+        if quiet > 0 { quiet -= 1; if quiet == 0 { h.light = false; } }
+        else if r.chance(6) { quiet = 3 + r.below(5) as usize; h.light = true; }
         let existing: Vec<usize> = (0..NW).filter(|i| h.worlds[*i].is_some()).collect();
         if existing.is_empty() {
             h.op_init(0, [1, 1, 1, 1]);
@@ -173,7 +178,15 @@ fn run_body(h: &mut H, r: &mut Rng, prof: &Profile) {
         } else if c < 94 {
             if prof.multi_world {
                 let other: Vec<usize> = existing.iter().copied().filter(|x| *x != wi).collect();
-                if !other.is_empty() && r.chance(35) {
+                if !other.is_empty() && r.chance(30) {
+                    // one archetype of another world overwritten through Clone::clone_from
+                    let dst = other[r.below(other.len() as u64) as usize];
+                    let (cf, df) = if prof.faults && r.chance(35) {
+                        if r.chance(50) { (Some(r.below(4) as u32), None) } else { (None, Some(r.below(4) as u32)) }
+                    } else { (None, None) };
+                    h.begin("arch_clone_from");
+                    h.op_arch_clone_from(wi, dst, pick_arch(r), cf, df);
+                } else if !other.is_empty() && r.chance(35) {
                     // overwrite an existing world through Clone::clone_from (may recycle allocations)
                     let dst = other[r.below(other.len() as u64) as usize];
                     h.begin("clone_from");
@@ -213,6 +226,7 @@ fn run_body(h: &mut H, r: &mut Rng, prof: &Profile) {
             h.op_drop(wi, None);
         }
     }
+    h.light = false;
     for wi in 0..NW {
         if h.worlds[wi].is_some() {
             h.begin("drop");
